@@ -15,7 +15,7 @@ func validateArguments(doc *ast.Document, s *schema.Schema, features schema.Feat
 		case *ast.Directive:
 			if def := s.Directives()[node.Name.Name]; def != nil {
 				arguments = node.Arguments
-				argumentDefinitions = def.Arguments
+				argumentDefinitions = def.VisibleArguments(features)
 			} else {
 				ret = append(ret, newSecondaryError(node, "undefined directive"))
 				return false
